@@ -72,4 +72,12 @@ CHECKS = {
         "that the digests are equal for all contents and that every output symbol is the specification's base-64 group.",
    note="Trusted: z3; specification transcriptions (validated on published hashes with real digests every run); digest primitives are "
         "uninterpreted. Outside: lengths/costs not in the grid, OS crypt()/Django oracles, remaining formats (listed in evidence)."),
+ "C20": dict(engine="E1-zshadow", category="translation_validation", design_ref="DESIGN.md §4 C20",
+   technique="symbolic execution with uninterpreted primitives + z3: libpass sha-crypt vs specification, pre-hash equality, update-check arithmetic, context logic",
+   text="z3 decides, per shape and for all password/salt bytes, that libpass's _sha_crypt equals the SHA-crypt specification (C02 shows "
+        "the same for passlib, so both agree); that both APIs compute the same bcrypt-sha256 pre-hash; that every libpass hasher's "
+        "update check is exactly 'effective stored cost differs from the configured one' over all integers; and that libpass's "
+        "CryptContext hashes with the first scheme, verifies with any and asks for an update iff the first scheme does not identify.",
+   note="Trusted: z3; digest/HMAC primitives uninterpreted; inspectors stubbed for the cost arithmetic. The bcrypt wheel and "
+        "hashlib.pbkdf2_hmac are only exercised by a finite real-primitive battery (stated as enumeration)."),
 }
